@@ -113,6 +113,9 @@ def plan(tier, seed):
                           'seed': seed * 1000 + 100 + 20 * ci + i,
                           'sessions': 3 if q else 8,
                           'rounds': 6 if q else 12})
+    for i in range(1 if q else 3):
+        specs.append({'mode': 'fork_held', 'seed': seed * 1000 + 400 + i, 'timeout': 150,
+                      'iters': 3000 if q else 20000})
     for ci, c in enumerate(CARRIERS):
         for i in range(3 if q else 7):
             nprocs = [2, 4, 8, 12, 3, 6, 5, 10, 7, 9][(i + seed + ci) % 10]
@@ -1187,8 +1190,65 @@ def run_atomic(spec, rec):
     atomic_spec(rec, rng, c, phases)
 
 
+def run_fork_held(spec, rec):
+    """a process forked while the forking thread holds a shared object's lock:
+    the child does not own that lock - its non-blocking attempt fails, nothing
+    it does under the lock happens before the parent lets go, and the locked
+    read-modify-write steps of both lose no update"""
+    import billiard
+    from vmon import c15_helpers as H
+    ctx = billiard.get_context('fork')
+    n = spec.get('iters', 3000)
+    for form, lockarg in (('value', True), ('array', True), ('value', 'rlock'), ('value', 'lock')):
+        A = {'mode': 'fork_held', 'form': form, 'lock': str(lockarg)}
+        rec.case()
+        rec.count('fork_held_sessions')
+        lk = True if lockarg is True else (ctx.RLock() if lockarg == 'rlock' else ctx.Lock())
+        obj = ctx.Value('l', 0, lock=lk) if form == 'value' else ctx.Array('l', 4, lock=lk)
+        rd = (lambda: obj.value) if form == 'value' else (lambda: obj[0])
+        lock = obj.get_lock()
+        pc, cc = ctx.Pipe()
+        lock.acquire()
+        try:
+            p = ctx.Process(target=H.fork_held_child, args=(obj, form, cc, n))
+            p.daemon = True
+            p.start()
+            if not pc.poll(60):
+                raise RuntimeError('fork_held child never reported')
+            msg = pc.recv()
+            time.sleep(0.3)
+            raw = obj.get_obj()
+            seen = raw.value if form == 'value' else raw[0]
+        finally:
+            lock.release()
+        if msg[1]:
+            rec.violation('lock_taken_by_child_forked_while_held', A)
+        if seen != 0:
+            rec.violation('update_made_while_lock_held_elsewhere', A, value=seen)
+        raw = obj.get_obj()        # (the accessors take the lock themselves)
+        for _ in range(n):
+            with lock:
+                if form == 'value':
+                    raw.value = raw.value + 1
+                else:
+                    raw[0] = raw[0] + 1
+        done = pc.poll(120) and pc.recv()
+        p.join(20)
+        if p.is_alive():
+            p.terminate()
+        if not done:
+            rec.violation('child_forked_while_held_never_finished', A)
+        elif rd() != 2 * n:
+            rec.violation('lost_update', dict(A, carrier='fork'), final=rd(), expected=2 * n)
+        else:
+            rec.count('fork_held_totals_exact')
+        rec.sig(['fork_held', form, str(lockarg), bool(msg[1]), rd() == 2 * n])
+
+
 def run_spec(spec, rec):
     mode = spec['mode']
+    if mode == 'fork_held':
+        return run_fork_held(spec, rec)
     if mode == 'init':
         run_init(spec, rec)
     elif mode == 'init_mt':
